@@ -148,6 +148,12 @@ def run(res, tier):
             # a comparison at the root, so that its value is what is observed
             e = ("bin", rng.choice(["<", "<=", ">", ">=", "==", "!="]), e, gen_expr(rng, rng.randint(0, 2), names)) if rng.random() < 0.5 else \
                 ("ife", ("bin", rng.choice(["==", "!=", "<=", ">="]), ("var", names[0]), ("var", names[-1])), ("lit", 1), ("lit", 0))
+        if i % 7 == 3:
+            # a value compared with / combined with *itself* (the same Python object on both sides, as on the diagonal of an
+            # all-pairs loop), at the root or under an if_else
+            v = ("var", rng.choice(names))
+            cmp_ = ("bin", rng.choice(["==", "!=", "<", "<=", ">", ">="]), v, v)
+            e = rng.choice([cmp_, ("ife", cmp_, e, ("var", names[-1])), ("bin", rng.choice(["+", "-", "*"]), v, v)])
         real, absr = run_one(e, modes, vals)
         evals += 1
         if real[0] != "ok":
